@@ -75,19 +75,39 @@ property (which column would be "the template on that channel"?); the real code 
 ValueError (`template_max.max()` of an empty array when no column is in use, model.py:944; `np.argmax` of an empty
 amplitude vector when every column in use is all-zero, model.py:956), while the model would return the empty record
 with `best = 0` (`sparse_raises_of_no_signal` says which inputs these are; `sparseRaises`, driver field `raises`,
-compared with the real outcome by the harness).  Arithmetic: exact (`Rat`); the real `template.astype(np.float32)`
-(model.py:951) and the single precision subtraction `max − min` agree with it on waveforms that are float32 values with
-float32 peak-to-peak — the domain the harness judges sparse records on. -/
+compared with the real outcome by the harness).
+Arithmetic: the model is exact (`Rat`), the real code casts the waveform (`template.astype(np.float32)`, model.py:951)
+and subtracts in single precision (`max − min`, model.py:955).  `hf`: the kept (unwhitened) waveform consists of float32
+values (the cast is the identity on it); `hp`: every kept column's exact peak-to-peak is a float32 value — then the
+model's amplitude vector IS the rounded one (second conjunct: every reported amplitude is a float32 value).  Outside
+`hf`/`hp` the statement says nothing about the real record (same gap as `dense_f32_record_ok`, where the cast is
+modelled); the harness generates sparse datasets inside them (small integers × dyadic gains). -/
 theorem sparse_record_ok (wmi : Mat) (sc : Rat) (Tw : Mat) (cols : List Int) (m : Int) (unwh : Bool)
     (hrect : ∀ row ∈ Tw, row.length = cols.length) (hT : Tw ≠ [])
     (hcols : ∀ c ∈ cols, c = m ∨ 0 ≤ c) (hdist : (cols.filter (· ≠ m)).Nodup)
-    (_hk : keptCols Tw cols m ≠ []) :
-    let keep := keptCols Tw cols m
-    let ch := keep.map fun j => (cols.getD j 0).toNat
-    let sub : Mat := Tw.map fun row => keep.map fun j => row.getD j 0
-    sparseOK ch (if unwh then unwhiten wmi sc sub (some ch) else sub)
-      (getTemplateSparse wmi sc Tw cols m unwh) = true :=
-  Lemmas.sparse_record_ok wmi sc Tw cols m unwh hrect hT hcols hdist
+    (_hk : keptCols Tw cols m ≠ [])
+    (_hf : let keep := keptCols Tw cols m
+           let ch := keep.map fun j => (cols.getD j 0).toNat
+           let sub : Mat := Tw.map fun row => keep.map fun j => row.getD j 0
+           castF 24 (if unwh then unwhiten wmi sc sub (some ch) else sub)
+             = (if unwh then unwhiten wmi sc sub (some ch) else sub))
+    (hp : ∀ j, j < (keptCols Tw cols m).length →
+      roundNE 24 (ptp (col (if unwh then unwhiten wmi sc
+          (Tw.map fun row => (keptCols Tw cols m).map fun j => row.getD j 0)
+          (some ((keptCols Tw cols m).map fun j => (cols.getD j 0).toNat))
+        else Tw.map fun row => (keptCols Tw cols m).map fun j => row.getD j 0) j))
+      = ptp (col (if unwh then unwhiten wmi sc
+          (Tw.map fun row => (keptCols Tw cols m).map fun j => row.getD j 0)
+          (some ((keptCols Tw cols m).map fun j => (cols.getD j 0).toNat))
+        else Tw.map fun row => (keptCols Tw cols m).map fun j => row.getD j 0) j)) :
+    (let keep := keptCols Tw cols m
+     let ch := keep.map fun j => (cols.getD j 0).toNat
+     let sub : Mat := Tw.map fun row => keep.map fun j => row.getD j 0
+     sparseOK ch (if unwh then unwhiten wmi sc sub (some ch) else sub)
+       (getTemplateSparse wmi sc Tw cols m unwh) = true) ∧
+    ∀ a ∈ (getTemplateSparse wmi sc Tw cols m unwh).amplitude, roundNE 24 a = a :=
+  ⟨Lemmas.sparse_record_ok wmi sc Tw cols m unwh hrect hT hcols hdist,
+   Lemmas.sparse_amp_exact wmi sc Tw cols m unwh 24 hp⟩
 
 /-- Sparse storage, "the stored channels minus unused (−1) and signal-free ones": channel `c` is listed iff some
 stored column `j` holds it, is in use (`cols[j] ≠ m`) and carries signal — its largest absolute value exceeds
@@ -174,6 +194,11 @@ example : keptCols [[1, 6, 0, 3], [-1, 0, 0, 3]] [2, 0, -1, 1] (-1) = [0, 1, 3] 
     sparseRaises [[1, 6, 0, 3], [-1, 0, 0, 3]] [2, 0, -1, 1] (-1) = false ∧
     sparseRaises [[1, 2], [0, 0]] [-1, -1] (-1) = true ∧ sparseRaises [[0, 0, 7], [0, 0, 7]] [3, 4, -1] (-1) = true := by
   decide +kernel
+-- the hypotheses `hk`, `hf`, `hp` of `sparse_record_ok` on the unwhitened example record below (gains 1, 2, 4)
+example :
+    let Tk := unwhiten [[1, 0, 0], [0, 2, 0], [0, 0, 4]] 1 [[1, 6, 3], [-1, 0, 3]] (some [2, 0, 1])
+    keptCols [[1, 6, 0, 3], [-1, 0, 0, 3]] [2, 0, -1, 1] (-1) = [0, 1, 3] ∧ castF 24 Tk = Tk ∧
+    Tk = [[4, 6, 6], [-4, 0, 6]] ∧ ∀ j, j < 3 → roundNE 24 (ptp (col Tk j)) = ptp (col Tk j) := by decide +kernel
 -- unwhiten on kept channels [2, 0] of a 3x3 inverse (hch: 2 < 3): [[1, 1]] · [[4, 0], [0, 1]] · 10
 example : unwhiten [[1, 0, 0], [0, 2, 0], [0, 0, 4]] 10 [[1, 1]] (some [2, 0]) = [[40, 10]] := by decide +kernel
 example : oneTermCols [[2, 0], [0, 1/3]] = true ∧ oneTermCols [[1, 1], [0, 1]] = false ∧
